@@ -44,7 +44,7 @@ check("C08", "model_checking",
       "DESIGN.md §2.4, §3 C08", engine="engine/common (history enumeration)")
 check("C09", "model_checking",
       "exhaustive (pooled type x field x release path) obligations by reflection + explicit-state search over parse/hold/release histories up to depth 4/5 with snapshot and pointer-disjointness invariants",
-      "Every pooled type and release path found in pool.go at check time: every field filled, released, re-obtained (pointer identity asserted) and compared with a new object incl. backing arrays; all histories over 23 operations (parse / hold / release, error paths of parser and tokenizer, formatters, validators, linter, extractors, scanner, recovery, tokenizer borrow / return) on 6 queries sharing pooled shapes: held trees/tokens/results never change, live trees share no pooled node, no node is put twice or pooled while live; every contiguous sub-slice of a held token list through every token-consuming entry point leaves the whole backing array (spare capacity included) as it was.",
+      "Every pooled type and release path found in pool.go at check time: every field filled, released, re-obtained (pointer identity asserted) and compared with a new object incl. backing arrays; all histories over 24 operations (parse / hold / release, error paths of parser and tokenizer, formatters, validators, linter, extractors, scanner, recovery, tokenizer borrow / return) on 6 queries sharing pooled shapes: held trees/tokens/results never change, live trees share no pooled node, no node is put twice or pooled while live; every contiguous sub-slice of a held token list through every token-consuming entry point leaves the whole backing array (spare capacity included) as it was.",
       "Trusted: reflection-based fill; GC disabled inside a history so the pools hand objects back deterministically; the cross-goroutine clause is C10's.",
       "DESIGN.md §2.4, §3 C09", engine="engine/common (history enumeration)")
 check("C10", "exploration",
